@@ -5,13 +5,13 @@ props = [json.loads(l) for l in open('/verif/properties.jsonl')]
 hook_commits = subprocess.run("git -C /repo log --format=%h --grep='^verif:'", shell=True, stdout=subprocess.PIPE, universal_newlines=True).stdout.split()
 TB = "trusted: Coq 8.16.1 kernel; extraction (ExtrOcamlBasic only); OCaml/Go/Python drivers; the sampled correspondence Go≡model (finite tables exhaustive); see DESIGN.md §6"
 CLAIMS = {
- "C01": ("other", "value forests written by the real Writer and read back by the real Reader must give the forest's trace (binary); K3/K2 tie the writer and reader models to the same runs; writer-side theorems (no panic, declared lengths) in Coq", "§7 C01"),
- "C02": ("other", "independent Coq specification decoder of Ion text (Text/SpecText.v) + spec-derived printer with randomised spellings; oracle: the real Reader's trace of every rendering equals the forest's; spec/printer self-check on every case", "§7 C02"),
+ "C01": ("other", "Coq theorems over the Writer and Reader models, for every well-formed value forest of any depth: the binary Writer's output decodes under the specification decoder to exactly the forest (C04_binary) and the binary Reader model's full traversal of that output is exactly the forest's trace, local symbol table included (C01bin); finite-universe text round trip (tw_tdecode_universe); K3/K2/K4/K5 tie the four models to the real Writer/Reader on the same runs; oracle: real write then real read back = the forest's trace in all three writer modes", "§7 C01"),
+ "C02": ("other", "29 Coq theorems over the text reader model (Text/Spell*.v, Props/C02.v): spelling freedom as inductive relations independent of the reader (whitespace/comments, underscore/radix/exponent number forms, every escape, short and long strings, symbols, base64 with inner whitespace, clobs, timestamps) and, for ALL spellings, the reader model returns the denoted value; lifted to the full traversal of streams of nested values (c02_traverse_stream_partial: the omitted stream-level spellings are listed in DESIGN.md §9); K5 ties the reader model to the real Reader; oracle on the real code: independent Coq specification decoder SpecText.tdecode + spec-derived printer with randomised spellings, the real Reader's trace of every rendering equals the forest's", "§7 C02"),
  "C03": ("other", "K2: binary reader model vs real Reader on encodings from a spec-derived encoder with randomised representation choices; oracle: trace equals the forest's", "§7 C03"),
  "C04": ("other", "binary: K3 correspondence of the Writer model with the real Writer + the real Writer's bytes judged by the extracted independent decoder SpecBin.sdecode; Coq theorems: every tag declares exactly the bytes buffered under it, for every reachable state of every call sequence; text: finite quoting/escape tables exhaustively + forests (K4)", "§7 C04"),
  "C05": ("other", "documented copy loop run by the real code from binary/text sources with local symbol tables into text/pretty/binary Writers; oracle: copy reads back as the source (symbols by text), binary copies accepted by the independent decoder; Coq: the loop's call sequence denotes the observed forest for any Writer; the binary Writer model resolves tokens by text", "§7 C05"),
- "C06": ("other", "hostile inputs through traversal, random navigation programs, Decoder.Decode and Unmarshal into 18 target kinds in an isolated worker; outcome classes panic/fatal/timeout/over-allocation are violations; K2 ties the reader model (explicit Panic outcomes, fuel, allocation counter)", "§7 C06"),
- "C07": ("other", "valid binary documents x catalogue of spec-invalidating edits judged by the independent decoder; the real Reader must end with a permanent error; K2 on the same inputs; text part: catalogue of malformed texts judged by SpecText (c07text)", "§7 C07"),
+ "C06": ("other", "Coq theorems: the binary reader model never panics, always returns within fuel linear in the input and allocates at most input + 64 KiB, for every input and every navigation program (timestamp body parser discharged); the text reader model never panics for every input and program; K2/K5 tie the models to the real readers; on the real code: hostile inputs (extreme lengths and exponents, truncations, deep nesting) through traversal, skip/step-out programs, Decoder.Decode and Unmarshal into 18 target kinds in an isolated worker; outcome classes panic/fatal/timeout/over-allocation are violations", "§7 C06"),
+ "C07": ("other", "Coq theorems: an error of the binary or text reader model is permanent over all programs (C07bin_*, tr_sticky*), every text an accessor returns is valid UTF-8 (tr_utf8); K2/K5 tie the models; on the real code: valid binary documents x catalogue of spec-invalidating edits (every truncation, length edits, negative zero of every magnitude length, dangling field names, ...) judged by the independent decoder SpecBin.sdecode, catalogue of malformed texts x contexts and edits judged by SpecText.tdecode; the real Reader must end with a permanent error", "§7 C07"),
  "C08": ("other", "documents x navigation programs (incl. refused calls) against a reference cursor over the value tree; K2 ties the reader model's r_run to the real Reader on the same programs", "§7 C08"),
  "C09": ("proof", "34 Coq theorems over the Gallina model of symboltable.go/symboltoken.go/catalog.go (slot layout, lowest-id lookup, rejection above MaxID, builder stability over all Add histories; refuted variants with witnesses for uint64 overflow and the empty symbol); model tied to the Go API by exhaustive small configurations + random large ones", "§7 C09"),
  "C10": ("proof", "14 Coq theorems: the table ion-go builds from a symbol-table struct denotes the specification's context (C10_step_refines), lifted over every history prefix (C10_history), resolution (C10_resolve), imports by exact/latest/placeholder/error (C10_import), symbol tables never surface; refuted variants for D16/D17; K7 on histories x catalogs x text/binary with an independent Python oracle", "§7 C10"),
